@@ -108,12 +108,18 @@ func preOakTree(oak, forkAt, lenA, lenB int, dts [3]int, dtA, dtB, hard int) (ki
 // reference ledger as in TestC04 (UpdatesSince re-applies blocks with the
 // store's ancestor timestamps).
 func TestC04PreOak(t *testing.T) {
-	d := kit.NewDirect(t, "C04", "pre-Oak family: Oak hardfork at 500 (branches crossing it) and at 1200 (branches crossing the adjustment height 1000); one subscriber from nothing polling in chunks of 7 / 1000, one joining on the first branch and left behind across the reorg; same oracle as TestC04")
+	d := kit.NewDirect(t, "C04", "pre-Oak family: Oak hardfork at 500 (branches crossing it), at 1700 (branches crossing the adjustment height 1500, the first whose 1000-block window does not start at genesis) and, in the thorough tier, at 1200 (adjustment height 1000); one subscriber from nothing polling in chunks of 7 / 1000, one joining on the first branch and left behind across the reorg; same oracle as TestC04")
 	defer d.Done()
-	for _, sh := range []struct{ oak, forkAt int }{{500, 497}, {1200, 998}} {
-		if sh.oak > 500 && !kit.Thorough() {
+	for si, sh := range []struct{ oak, forkAt int }{{500, 497}, {1700, 1498}, {1200, 998}} {
+		if sh.oak == 1200 && !kit.Thorough() {
 			continue
 		}
+		if !kit.MyShard(si) {
+			continue
+		}
+		// (1700, 1498): the adjustment at height 1500 is the first whose window
+		// does not start at genesis - the ancestor timestamp handed to the
+		// re-application decides the target the update's state carries
 		tc, trunk := preOakTree(sh.oak, sh.forkAt, 5, 7, [3]int{2, 1, 2}, 1, 3, 1)
 		sub := func(b []int) *kit.SubmitStep { return &kit.SubmitStep{Batch: b} }
 		c := C04Case{Tree: tc, Subs: 1}
